@@ -173,14 +173,24 @@ Definition qring_bits (r : option bool) : Z :=
 Definition elem_masks (n : Z) : Z * Z :=
   if 56 <? n then (1, bit (120 - clamp116 n)) else (bit (57 - n), 0).
 
+(* hydrogens: `if not t: v3 |= 0x7c0000000` / `else: for h in t: if h > 4: continue; v3 |= 1 << (h + 30)` *)
+Definition or_bits_h (l : list Z) (v : Z) : Z :=
+  fold_left (fun acc h => if 4 <? h then acc else Z.lor acc (bit (h + 30))) l v.
+Definition or_field_h (l : list Z) (v : Z) : Z := match l with [] => Z.lor v 0x7c0000000 | _ => or_bits_h l v end.
+
+(*  if isinstance(a, QueryElement) and a.isotope:
+        if -8 <= a.isotope - a.mdl_isotope <= 8: v3 = 1 << (a.isotope - a.mdl_isotope + 54)
+        else: v3 = 0                       # isotope is out of the field. matches nothing
+        v3 |= 0x200000000000 if a.is_radical else 0x100000000000                                          *)
 Definition enc_x3 (iso : option Z) (num : Z) (x : qx) : Z :=
   let v3 :=
     if iso_truthy iso then
-      Z.lor (bit ((match iso with Some i => i | None => 0 end) - mdl_of num + 54))
+      let d := (match iso with Some i => i | None => 0 end) - mdl_of num in
+      Z.lor (if (-8 <=? d) && (d <=? 8) then bit (d + 54) else 0)
             (if x_rad x then 0x200000000000 else 0x100000000000)
     else if x_rad x then 0xffffe00000000000 else 0xffffd00000000000 in
   let v3 := Z.lor v3 (bit (x_chg x + 39)) in
-  let v3 := or_field (fun h => h + 30) 0x7c0000000 (x_h x) v3 in
+  let v3 := or_field_h (x_h x) v3 in
   or_field (fun n => n) 0x7fff (x_het x) v3.
 
 Definition enc_x4 (x : qx) : Z :=
@@ -193,7 +203,7 @@ Definition enc_x4 (x : qx) : Z :=
 Definition enc_qatom (q : qatom) (b : option qbond) : bits4 :=
   let '(v1, v2, v3, v4, nb, hyb) :=
     match q with
-    | QMetal nb hyb => (0x0060707ffc1fff87, 0xfffffff7fffffff0, 0xffffffffc0007fff, 0xffffffffffffffff, nb, hyb)
+    | QMetal nb hyb => (0x0060707ffc1fff87, 0xfffffff3fffffff0, 0xffffffffc0007fff, 0xffffffffffffffff, nb, hyb)
     | QAny x => (0x01ffffffffffffff, 0xfffffffffffffff0, enc_x3 None 0 x, enc_x4 x, x_nb x, x_hyb x)
     | QList nums x =>
         let '(v1, v2) := fold_left (fun acc n => let '(m1, m2) := elem_masks n in (Z.lor (fst acc) m1, Z.lor (snd acc) m2)) nums (0, 0) in
@@ -252,7 +262,7 @@ Definition atom_ok (a : latom) : bool :=
   in_range 0 14 (la_het a) && all_in 3 65 (la_rings a).
 
 Definition qx_ok (x : qx) : bool :=
-  in_range (-4) 4 (x_chg x) && all_in 0 14 (x_nb x) && all_in 1 4 (x_hyb x) && all_in 0 4 (x_h x) &&
+  in_range (-4) 4 (x_chg x) && all_in 0 14 (x_nb x) && all_in 1 4 (x_hyb x) && all_in 0 14 (x_h x) &&
   all_in 0 14 (x_het x) &&
   (match x_rings x with
    | [] => true
@@ -261,7 +271,7 @@ Definition qx_ok (x : qx) : bool :=
 
 Definition query_ok (q : qatom) : bool :=
   match q with
-  | QElem n iso x => in_range 1 118 n && iso_off_ok iso n && qx_ok x
+  | QElem n iso x => in_range 1 118 n && qx_ok x      (* any query isotope: out of the field = matches nothing *)
   | QAny x => qx_ok x
   | QList l x => all_in 1 118 l && qx_ok x
   | QMetal nb hyb => all_in 0 14 nb && all_in 1 4 hyb
@@ -270,15 +280,14 @@ Definition query_ok (q : qatom) : bool :=
 Definition bond_ok (b : lbond) : bool := zmem (lb_ord b) [1; 2; 3; 4; 8].
 Definition qbond_ok (q : qbond) : bool := forallb (fun o => zmem o [1; 2; 3; 4; 8]) (qb_ord q).
 
-(* hypotheses on the element part: 1..116 on both sides (117 and 118 share the bit of 116: documented); for AnyMetal
-   the atom is not Rn (finding anymetal-rn) *)
+(* hypotheses on the element part: 1..116 on both sides (117 and 118 share the bit of 116: documented) *)
 Definition elem_hyp (q : qatom) (an : Z) : Prop :=
   1 <= an <= 116 /\
   match q with
   | QElem n _ _ => 1 <= n <= 116
   | QAny _ => True
   | QList nums _ => all_in 1 116 nums = true
-  | QMetal _ _ => an <> 86
+  | QMetal _ _ => True
   end.
 
 (* ------------------------------------------------------------------------------------------------------------ *)
@@ -506,9 +515,25 @@ Definition elem_hypb (q : qatom) (an : Z) : bool :=
   | QElem n _ _ => in_range 1 116 n
   | QAny _ => true
   | QList nums _ => all_in 1 116 nums
-  | QMetal _ _ => negb (an =? 86)
+  | QMetal _ _ => true
   end.
 Definition in_range_pairb (rq : list rqent) (rm : list ratom) : bool :=
   forallb (fun e => forallb (fun a => elem_hypb (rq_atom e) (la_num (ra_atom a))) rm) rq.
 Definition hyps_ok (rq : list rqent) (rm : list ratom) : bool :=
   nonempty rq && wf_queryb rq && wf_molb rm && in_range_pairb rq rm.
+
+(* ---- 4e. the guard of QueryIsomorphism.get_mapping and the choice of the path for one component / scope call ----
+     if _cython and any(a.implicit_hydrogens is None for _, a in other.atoms()): _cython = False
+   (an unknown hydrogen count has no code in the bit layout; such molecules take the reference path) *)
+Definition has_unknown_h (rm : list ratom) : bool :=
+  existsb (fun a => match la_h (ra_atom a) with None => true | Some _ => false end) rm.
+Definition uses_mask_path (cython : bool) (rm : list ratom) : bool := cython && negb (has_unknown_h rm).
+(* the mappings (query atom number -> molecule atom number) one component / scope call yields under the flag `_cython` *)
+Definition component_mappings (cython : bool) (rq : list rqent) (rm : list ratom) (scope : list bool) (fuel : nat)
+  : option (list (list (Z * Z))) :=
+  if uses_mask_path cython rm
+  then option_map (map (mask_mapping (enc_query rq) (enc_mol rm))) (mask_search (enc_query rq) (enc_mol rm) scope fuel)
+  else option_map (map (ref_mapping rq rm)) (ref_search rq rm scope fuel).
+(* the hypotheses of the component-level equivalence as one boolean *)
+Definition gm_hyps_ok (rq : list rqent) (rm : list ratom) : bool :=
+  nonempty rq && wf_queryb rq && (has_unknown_h rm || wf_molb rm) && in_range_pairb rq rm.
